@@ -255,6 +255,7 @@ def check(seed, n):
     try:
         for k in range(n):
             case = gen_case(rng)
+            proto.sample("tiger", case)
             r = run_case(case, d)
             evals += 1
             seen.add(repr(sorted(case.items())))
